@@ -131,9 +131,9 @@ class Method(Variable):  # i.e. TypeBound procedure
                 # Only procedures have an argument list to look PASS(arg) up in
                 args_snip = getattr(link_obj, "args_snip", None)
                 if self.pass_name is not None and args_snip is not None:
-                    self.pass_name = self.pass_name.lower()
+                    self.pass_name = self.pass_name.strip().lower()
                     for i, arg in enumerate(args_snip.split(",")):
-                        if arg.lower() == self.pass_name:
+                        if arg.strip().lower() == self.pass_name:
                             self.drop_arg = i
                             break
 
